@@ -10,7 +10,7 @@ with warnings.catch_warnings():
     warnings.simplefilter("error")
     l = L(); sm = M(); sm.add_listener(l); sm.send("go", 1); gc.collect()
     assert l.seen == [1], l.seen
-    l2 = L(); sm2 = M(listeners=[l2]); sm2.send("go", 1)
+    l2 = L(); sm2 = M(listeners=[l2]); sm2.ref = l2; sm2.send("go", 1)   # sm2.ref: public handle on the listener (copied with the machine)
     c = copy.deepcopy(sm2); c.send("go", 2); gc.collect()
-    (cl,) = [x for x in c._listeners]
+    cl = c.ref
     assert cl.seen == [1, 2] and l2.seen == [1], (cl.seen, l2.seen)
